@@ -114,27 +114,28 @@ partial def spinR (s : St) (recs : List String) : St × List String :=
       | .ok (r, none) => spinR { s with r, rq } recs
       | e => ({ s with bad := some (resName e) }, recs)
 
-/-- writer half of `spin`: `network_write`'s loop (minwrite = buflen) over the scripted `send` answers -/
-partial def spinW (s : St) (peer : Bytes) (fails : Nat) : St × Bytes × Nat :=
-  if s.bad.isSome then (s, peer, fails) else
+/-- writer half of `spin`: `network_write`'s loop (minwrite = buflen) over the scripted `send` answers;
+returns what the peer received, the number of failure callbacks and the number of send answers used -/
+partial def spinW (s : St) (peer : Bytes) (fails used : Nat) : St × Bytes × Nat × Nat :=
+  if s.bad.isSome then (s, peer, fails, used) else
   match s.w.curr, s.wq with
   | some wb, ans :: rest =>
     match ans with
-    | .eagain => spinW { s with wq := rest } peer fails
+    | .eagain => spinW { s with wq := rest } peer fails (used + 1)
     | .accept n =>
       let m := min n (wb.datalen - s.wpos)
       let peer := peer ++ (wb.buf.drop s.wpos).take m
       let wpos := s.wpos + m
-      if wpos < wb.datalen then spinW { s with wq := rest, wpos } peer fails
+      if wpos < wb.datalen then spinW { s with wq := rest, wpos } peer fails (used + 1)
       else
         match NetbufWrite.step s.w (.net (.done wpos)) with
-        | .ok (w, o) => spinW { s with w, wq := rest, wpos := 0 } peer (fails + (if o.failcb then 1 else 0))
-        | e => ({ s with bad := some (resName e) }, peer, fails)
+        | .ok (w, o) => spinW { s with w, wq := rest, wpos := 0 } peer (fails + (if o.failcb then 1 else 0)) (used + 1)
+        | e => ({ s with bad := some (resName e) }, peer, fails, used)
     | .fail =>
       match NetbufWrite.step s.w (.net (.fail s.wpos)) with
-      | .ok (w, o) => spinW { s with w, wq := rest, wpos := 0 } peer (fails + (if o.failcb then 1 else 0))
-      | e => ({ s with bad := some (resName e) }, peer, fails)
-  | _, _ => (s, peer, fails)
+      | .ok (w, o) => spinW { s with w, wq := rest, wpos := 0 } peer (fails + (if o.failcb then 1 else 0)) (used + 1)
+      | e => ({ s with bad := some (resName e) }, peer, fails, used)
+  | _, _ => (s, peer, fails, used)
 
 def argBytes (pat : Bool) (args : List String) : Option Bytes :=
   match pat, args with
@@ -219,12 +220,12 @@ def step (s : St) (toks : List String) : St × String :=
   | ["spin"] =>
     if s.w.reserved then (s, "contract") else
     let (s, recs) := spinR s []
-    let (s, peer, fails) := spinW s [] 0
+    let (s, peer, fails, used) := spinW s [] 0 0
     match s.bad with
     | some b => (s, b)
     | none =>
       let r := if recs.isEmpty then "-" else ",".intercalate recs
-      (s, s!"spin r={r} f={fails} peer={peer.length}:{fmtBytes peer peer.length} | {rl2 s.r} ; {wl2 s.w}")
+      (s, s!"spin r={r} f={fails} peer={peer.length}:{fmtBytes peer peer.length} sa={used} | {rl2 s.r} ; {wl2 s.w}")
   | _ => (s, "bad-op")
 
 def main (_args : List String) : IO UInt32 := loop ({} : St) step
